@@ -312,6 +312,11 @@ class TaintInterp:
             return False
         if isinstance(st, (ast.FunctionDef, ast.Import, ast.ImportFrom, ast.Global, ast.Nonlocal, ast.ClassDef)):
             return False
+        if isinstance(st, ast.Match):
+            from .model import desugar_match
+            d = desugar_match(st)
+            if d is not None:
+                return self.stmt(d, env, fr, pc)
         raise AnalysisError(f"taint interpreter: statement {type(st).__name__} at {fi.loc(st)} not supported")
 
     def assign(self, tg, v, env, pc, fi):
